@@ -11,25 +11,42 @@ use xml_schema_generator::{Options, SortBy};
 
 #[derive(Clone, Debug)]
 enum Input {
-    File(&'static str, Vec<u8>),
+    File(String, Vec<u8>),
     Missing,
     Directory,
 }
 
+fn s(x: &str) -> String {
+    x.to_string()
+}
+
+/// further valid inputs: every document of a small space and one document per pool name
+fn more_valid_inputs() -> Vec<Input> {
+    let mut out = Vec::new();
+    for (i, d) in super::hist::materialise(super::hist::plain_cfg(2)).into_iter().enumerate() {
+        out.push(Input::File(format!("space-w2-{}", i), d.xml.into_bytes()));
+    }
+    for p in super::names::ADV.iter().filter(|p| p.element) {
+        let xml = format!("<r {n}=\"v\"><{n} k=\"v\"><{n}>t</{n}></{n}><b/></r>", n = p.name);
+        out.push(Input::File(format!("name-{}", p.name), xml.into_bytes()));
+    }
+    out
+}
+
 fn inputs() -> Vec<Input> {
     vec![
-        Input::File("valid-small", b"<a b=\"c\">d</a>".to_vec()),
-        Input::File("valid-nested", b"<r z=\"1\" a=\"2\"><y><k/></y><b n=\"1\"/><b/><y/></r>\n".to_vec()),
-        Input::File("valid-prolog", b"<?xml version=\"1.0\" encoding=\"UTF-8\"?>\n<!DOCTYPE r>\n<!-- c -->\n<r><a>t</a></r>\n<!-- end -->\n".to_vec()),
-        Input::File("valid-non-ascii", "<каталог имя=\"ж\"><é>t</é></каталог>".as_bytes().to_vec()),
-        Input::File("valid-keywords", b"<self type=\"x\"><type/><Foo/><foo/></self>".to_vec()),
-        Input::File("empty-file", Vec::new()),
-        Input::File("text-only", b"just text\n".to_vec()),
-        Input::File("mismatched-tag", b"<a><b></a>".to_vec()),
-        Input::File("duplicate-attribute", b"<a x=\"1\" x=\"2\"/>".to_vec()),
-        Input::File("truncated-comment", b"<a><!-- </a>".to_vec()),
-        Input::File("non-utf8", b"<a>\xff\xfe</a>".to_vec()),
-        Input::File("non-utf8-name", b"<a><\xff/></a>".to_vec()),
+        Input::File(s("valid-small"), b"<a b=\"c\">d</a>".to_vec()),
+        Input::File(s("valid-nested"), b"<r z=\"1\" a=\"2\"><y><k/></y><b n=\"1\"/><b/><y/></r>\n".to_vec()),
+        Input::File(s("valid-prolog"), b"<?xml version=\"1.0\" encoding=\"UTF-8\"?>\n<!DOCTYPE r>\n<!-- c -->\n<r><a>t</a></r>\n<!-- end -->\n".to_vec()),
+        Input::File(s("valid-non-ascii"), "<каталог имя=\"ж\"><é>t</é></каталог>".as_bytes().to_vec()),
+        Input::File(s("valid-keywords"), b"<self type=\"x\"><type/><Foo/><foo/></self>".to_vec()),
+        Input::File(s("empty-file"), Vec::new()),
+        Input::File(s("text-only"), b"just text\n".to_vec()),
+        Input::File(s("mismatched-tag"), b"<a><b></a>".to_vec()),
+        Input::File(s("duplicate-attribute"), b"<a x=\"1\" x=\"2\"/>".to_vec()),
+        Input::File(s("truncated-comment"), b"<a><!-- </a>".to_vec()),
+        Input::File(s("non-utf8"), b"<a>\xff\xfe</a>".to_vec()),
+        Input::File(s("non-utf8-name"), b"<a><\xff/></a>".to_vec()),
         Input::Missing,
         Input::Directory,
     ]
@@ -42,11 +59,11 @@ const OUTPUTS: &[&str] = &["stdout", "new-file", "existing-file", "missing-direc
 const HEADER: &str = "use serde::{Deserialize, Serialize};\n\n";
 const OLD_CONTENT: &[u8] = b"// previous content\n";
 
-fn name_of(i: &Input) -> &'static str {
+fn name_of(i: &Input) -> String {
     match i {
-        Input::File(n, _) => n,
-        Input::Missing => "missing-path",
-        Input::Directory => "input-is-a-directory",
+        Input::File(n, _) => n.clone(),
+        Input::Missing => "missing-path".into(),
+        Input::Directory => "input-is-a-directory".into(),
     }
 }
 
@@ -259,10 +276,39 @@ pub fn run(ctx: &Ctx) {
             }
         },
     );
+    // second part: many more valid inputs under a reduced flag product (--derive default, outputs stdout / new file)
+    let extra = more_valid_inputs();
+    let reduced: Vec<u64> = {
+        // indices of the full product restricted to derive = None and output in {stdout, new-file}
+        let mut v = Vec::new();
+        for i in 0..(extra.len() * PARSERS.len() * DERIVES.len() * SORTS.len() * OUTPUTS.len()) as u64 {
+            let c = decode(i, extra.len());
+            if c.derive == 0 && c.output < 2 {
+                v.push(i);
+            }
+        }
+        v
+    };
+    let res2 = par_for(
+        reduced.len() as u64,
+        ctx.threads,
+        8,
+        Some(ctx.deadline),
+        |_| 0u64,
+        |acc, k| {
+            let vs = run_case(ctx, &bin, &extra, reduced[k as usize], &work);
+            for mut v in vs {
+                v.replay = json!({"index": reduced[k as usize], "input_set": "extra"});
+                ctx.report(v);
+            }
+            *acc += 1;
+        },
+    );
     let _ = std::fs::remove_dir_all(&work);
-    ctx.set("evaluations", json!(res.processed));
+    ctx.set("evaluations", json!(res.processed + res2.processed));
     ctx.set("distinct_nontrivial", json!(res.accs.iter().map(|a| a.1).sum::<u64>()));
-    ctx.set("exhaustive", json!(res.complete));
+    ctx.set("exhaustive", json!(res.complete && res2.complete));
+    ctx.set("further_valid_inputs", json!({"inputs": extra.len(), "runs": res2.processed, "flags": "parser x sort, derive default, output stdout / new file"}));
     ctx.set("inputs", json!(all.iter().map(name_of).collect::<Vec<_>>()));
     ctx.set("dimensions", json!({"inputs": all.len(), "parser": PARSERS.len(), "derive": DERIVES.len(), "sort": SORTS.len(), "output": OUTPUTS.len()}));
     ctx.set(
@@ -278,7 +324,7 @@ pub fn replay(ctx: &Ctx, case: &Value) {
         return ctx.machinery_error(format!("{} is missing", bin.display()));
     }
     let work = PathBuf::from(format!("{}/work/c12-replay-{}", ctx.verif_dir, std::process::id()));
-    let all = inputs();
+    let all = if case.get("input_set").and_then(|x| x.as_str()) == Some("extra") { more_valid_inputs() } else { inputs() };
     let idx = case["index"].as_u64().unwrap_or(0);
     let a = run_case(ctx, &bin, &all, idx, &work);
     let b = run_case(ctx, &bin, &all, idx, &work);
